@@ -1,7 +1,8 @@
 SPECIFICATION Spec
 CONSTANTS MaxEdit = 2  MaxInv = 3  MaxKill = 0  MaxFail = 0  GenDepth = 0
-CONSTANT Flags = {"plain"}
-CONSTANT Weak = {"NoPruneOnDigestChange"}
+CONSTANT Flags = {"plain", "bo", "force"}
+CONSTANT Weak = {}
 VIEW view
-CONSTRAINT CexPrint
+INVARIANT IncrementalEqClean
+INVARIANT Idempotent
 CHECK_DEADLOCK FALSE
